@@ -487,3 +487,44 @@ def run_b12(chk, repo):
                       f'PREDPP expects K', line=site.lineno,
                       witness='pheno -> first order absorption -> peripheral -> 2 transits -> 0 transits: $SUBROUTINE ADVAN4 '
                               'TRANS1 with K20 = CL/V2 and no K')
+
+
+def run_b14(chk, repo):
+    """partition loops: a loop that distributes its items over several lists puts every item into one of them"""
+    from sa import lints
+    B14 = chk.rule('B14', 'loops that sort the terms/statements into several lists append every item on every path', floor=1)
+    n = 0
+    for modname in (f'{NM}.records.code_record', f'{NM}.update'):
+        try:
+            m = repo.module(modname)
+        except Exception:
+            continue
+        for f in [x for x in repo.all_funcs() if x.module is m]:
+            for L in [x for x in walk_no_nested(f.node) if isinstance(x, ast.For) and isinstance(x.target, ast.Name)]:
+                v = L.target.id
+                lists = set()
+                for c in ast.walk(L):
+                    if isinstance(c, ast.Call) and isinstance(c.func, ast.Attribute) and c.func.attr == 'append' \
+                            and len(c.args) == 1 and isinstance(c.args[0], ast.Name) and c.args[0].id == v \
+                            and isinstance(c.func.value, ast.Name):
+                        lists.add(c.func.value.id)
+                if len(lists) < 2:
+                    continue
+
+                def target(s_, v=v):
+                    return isinstance(s_, ast.Expr) and isinstance(s_.value, ast.Call) \
+                        and isinstance(s_.value.func, ast.Attribute) and s_.value.func.attr == 'append' \
+                        and len(s_.value.args) == 1 and isinstance(s_.value.args[0], ast.Name) and s_.value.args[0].id == v
+                may, must = lints.exec_under(L.body, {}, target)
+                key = (f.fq, L.lineno)
+                n += 1
+                chk.instance(B14, f'{f.qualname}: for {v} in {unparse(L.iter)[:30]}: distributed over {sorted(lists)}; every '
+                                  f'path appends: {must}')
+                if not must:
+                    chk.violation(B14, m.rel, f.qualname, f'for {v} in {unparse(L.iter)}: lists {sorted(lists)}',
+                                  f'some path through the loop body puts `{v}` into none of {sorted(lists)}: the item '
+                                  f'disappears from the output', line=L.lineno,
+                                  witness='Y = F + W*EPS(1)*EXP(ETA(3)) + EPS(2): a term with two random variables next to a '
+                                          'term with one is dropped from the generated sum')
+    if n == 0:
+        raise AnalysisError('B14: no partition loop found')
